@@ -10,7 +10,7 @@
 use vstd::prelude::*;
 //@prelude fmt_macro
 verus! {
-//@prelude std_specs r32
+//@prelude std_specs r32 parse
 
 #[verifier::external_body] pub struct OutputList { _p: u8 }
 #[verifier::external_body] pub struct InputList { _p: u8 }
@@ -24,10 +24,16 @@ impl Copy for BoundingBox {}
 
 pub enum SvgdxError { LoopLimitError(u32, u32), InvalidData(String), MissingAttribute(String), ParseError(String), Other }
 pub type Result<T> = core::result::Result<T, SvgdxError>;
+impl vstd::std_specs::convert::FromSpecImpl<core::num::ParseIntError> for SvgdxError { open spec fn obeys_from_spec() -> bool { false } uninterp spec fn from_spec(v: core::num::ParseIntError) -> Self; }
+impl From<core::num::ParseIntError> for SvgdxError { #[verifier::external_body] fn from(e: core::num::ParseIntError) -> SvgdxError { unimplemented!() } }
+impl vstd::std_specs::convert::FromSpecImpl<PFErr> for SvgdxError { open spec fn obeys_from_spec() -> bool { false } uninterp spec fn from_spec(v: PFErr) -> Self; }
+impl From<PFErr> for SvgdxError { #[verifier::external_body] fn from(e: PFErr) -> SvgdxError { unimplemented!() } }
 pub struct TransformConfig { pub loop_limit: u32 }
 
 /// observable steps of a generator
 pub enum Step {
+    /// an attribute expression was evaluated (may advance the random stream)
+    Eval(Seq<char>),
     Cond(bool),
     Set(Seq<char>, Seq<char>),
     Body(Seq<OutEv>, Option<BoundingBox>),
@@ -65,9 +71,15 @@ impl TransformerContext {
     { unimplemented!() }
 }
 #[verifier::external_body]
-pub fn eval_attr(value: &str, context: &TransformerContext) -> (r: Result<String>) { unimplemented!() }
+pub fn eval_attr(value: &str, context: &mut TransformerContext) -> (r: Result<String>)
+    ensures final(context).config == old(context).config,
+            r is Ok ==> final(context).tr@ == old(context).tr@.push(Step::Eval(value@)),
+{ unimplemented!() }
 #[verifier::external_body]
-pub fn eval_list(value: &str, context: &TransformerContext) -> (r: Result<Vec<String>>) { unimplemented!() }
+pub fn eval_list(value: &str, context: &mut TransformerContext) -> (r: Result<Vec<String>>)
+    ensures final(context).config == old(context).config,
+            r is Ok ==> final(context).tr@ == old(context).tr@.push(Step::Eval(value@)),
+{ unimplemented!() }
 #[verifier::external_body]
 pub fn eval_condition(value: &str, context: &mut TransformerContext) -> (r: Result<bool>)
     ensures final(context).config == old(context).config,
@@ -141,6 +153,7 @@ pub open spec fn passes(kind: int, name: Seq<char>, start: real, step: real, bod
             + (if kind == 2 { seq![Step::Cond(false)] } else { Seq::<Step>::empty() })
     }
 }
+pub open spec fn all_evals(h: Seq<Step>) -> bool { forall|i: int| 0 <= i < h.len() ==> (#[trigger] h[i]) is Eval }
 pub open spec fn all_bodies(bodies: Seq<Step>) -> bool { forall|i: int| 0 <= i < bodies.len() ==> (#[trigger] bodies[i]) is Body }
 pub open spec fn cat_events(bodies: Seq<Step>, n: nat) -> Seq<OutEv> decreases n {
     if n == 0 { Seq::<OutEv>::empty() } else { cat_events(bodies, (n - 1) as nat) + bodies[n - 1]->Body_0 }
@@ -248,14 +261,13 @@ pub proof fn lemma_exit_until(count: nat, name: Seq<char>, start: real, step: re
 
 impl EventGen for LoopElement {
 //@item src/loop_el.rs :: impl EventGen for LoopElement :: fn generate_events
-//@ replace[R-parse] <<<loop_count = eval_attr(count, context)?.parse()?;>>> => <<<loop_count = parse_u32(&eval_attr(count, context)?)?;>>>
-//@ replace[R-parse] <<<loop_var_value = eval_attr(&start, context)?.parse()?;>>> => <<<loop_var_value = parse_r32(&eval_attr(&start, context)?)?;>>>
-//@ replace[R-parse] <<<loop_step = eval_attr(&step, context)?.parse()?;>>> => <<<loop_step = parse_r32(&eval_attr(&step, context)?)?;>>>
 //@ before <<<loop {>>>
 //@ | let ghost g_start = val(loop_var_value);
 //@ | let ghost g_step = val(loop_step);
 //@ | let ghost g_kind = kind_of(loop_def.loop_type);
 //@ | let ghost g_pre = context.tr@;
+//@ | let ghost g_hdr = g_pre.subrange(old(context).tr@.len() as int, g_pre.len() as int);
+//@ | proof { assert(g_pre =~= old(context).tr@ + g_hdr); }
 //@ | let ghost mut g_bodies: Seq<Step> = Seq::empty();
 //@ | let ghost g_limit = context.config.loop_limit as nat;
 //@ after <<<loop {>>>
@@ -282,10 +294,10 @@ impl EventGen for LoopElement {
 //@ | }
 //@ ensures
 //@ - match r { Err(_) => true, Ok((ol, bb)) =>
-//@     (exists|kind: int, count: nat, name: Seq<char>, start: real, step: real, boxes: Seq<BoundingBox>|
-//@       #[trigger] loop_post(kind, count, name, start, step, old(context).config.loop_limit as nat, old(context).tr@, final(context).tr@, ol@, boxes)
-//@       && bb == union_spec(boxes))
-//@     || (final(context).tr@ == old(context).tr@ && ol@ == Seq::<OutEv>::empty()) }     @@C16.loop.unrolling @@C17.loop.exact
+//@     (exists|hdr: Seq<Step>, kind: int, count: nat, name: Seq<char>, start: real, step: real, boxes: Seq<BoundingBox>|
+//@       #[trigger] loop_post(kind, count, name, start, step, old(context).config.loop_limit as nat, old(context).tr@ + hdr, final(context).tr@, ol@, boxes)
+//@       && all_evals(hdr) && hdr.len() <= 4 && bb == union_spec(boxes))
+//@     || (final(context).tr@ == old(context).tr@ && ol@ == Seq::<OutEv>::empty()) }     @@C16.loop.unrolling @@C17.loop.exact @@C14.header.once
 //@ loop 1
 //@ invariant_except_break
 //@ - all_bodies(g_bodies)
@@ -300,11 +312,11 @@ impl EventGen for LoopElement {
 //@ - context.config == old(context).config
 //@ - context.config.loop_limit < u32::MAX
 //@ - g_limit == context.config.loop_limit
-//@ - g_pre == old(context).tr@
+//@ - g_pre == old(context).tr@ + g_hdr && all_evals(g_hdr) && g_hdr.len() <= 4
 //@ - g_kind == kind_of(loop_def.loop_type)
 //@ - g_step == val(loop_step)
 //@ ensures
-//@ - loop_post(g_kind, loop_count as nat, loop_var_name@, g_start, g_step, old(context).config.loop_limit as nat, old(context).tr@, context.tr@, gen_events@, bbox.boxes())
+//@ - loop_post(g_kind, loop_count as nat, loop_var_name@, g_start, g_step, old(context).config.loop_limit as nat, old(context).tr@ + g_hdr, context.tr@, gen_events@, bbox.boxes())
 //@ - context.config == old(context).config
 //@ decreases
 //@ - context.config.loop_limit - iteration     @@C01.loop.terminates
@@ -372,6 +384,8 @@ impl EventGen for ForElement {
 //@ replace[R-tostring] <<<&idx.to_string()>>> => <<<&u32_to_string(idx)>>>
 //@ before <<<for item in data_list {>>>
 //@ | let ghost g_pre = context.tr@;
+//@ | let ghost g_hdr = g_pre.subrange(old(context).tr@.len() as int, g_pre.len() as int);
+//@ | proof { assert(g_pre =~= old(context).tr@ + g_hdr); }
 //@ | let ghost g_list = data_list@;
 //@ | let ghost g_items = strs(data_list@);
 //@ | let ghost g_var = for_def.var_name@;
@@ -392,21 +406,21 @@ impl EventGen for ForElement {
 //@ | }
 //@ before <<<Ok((gen_events, bbox.build()))>>>
 //@ | proof {
-//@ |     lemma_for_exit(old(context).config.loop_limit as nat, g_var, g_idx, g_items, g_bodies, old(context).tr@, context.tr@, gen_events@, bbox.boxes());
+//@ |     lemma_for_exit(old(context).config.loop_limit as nat, g_var, g_idx, g_items, g_bodies, old(context).tr@ + g_hdr, context.tr@, gen_events@, bbox.boxes());
 //@ |     // solver nudge: name the result term so its tuple projection is available
 //@ |     let t: Result<(OutputList, Option<BoundingBox>)> = Ok((gen_events, union_spec(bbox.boxes()))); assert(t->Ok_0.0 == gen_events);
 //@ | }
 //@ ensures
 //@ - match r { Err(_) => true, Ok((ol, bb)) =>
-//@     exists|boxes: Seq<BoundingBox>| #[trigger] for_post(old(context).config.loop_limit as nat, old(context).tr@, final(context).tr@, ol@, boxes)
-//@       && bb == union_spec(boxes) }     @@C16.for.unrolling @@C17.for.exact
+//@     exists|hdr: Seq<Step>, boxes: Seq<BoundingBox>| #[trigger] for_post(old(context).config.loop_limit as nat, old(context).tr@ + hdr, final(context).tr@, ol@, boxes)
+//@       && all_evals(hdr) && hdr.len() == 1 && bb == union_spec(boxes) }     @@C16.for.unrolling @@C17.for.exact
 //@ loop 1
 //@ iter it
 //@ invariant
 //@ - context.config == old(context).config
 //@ - context.config.loop_limit < u32::MAX
 //@ - g_limit == context.config.loop_limit
-//@ - g_pre == old(context).tr@
+//@ - g_pre == old(context).tr@ + g_hdr && all_evals(g_hdr) && g_hdr.len() == 1
 //@ - g_idx == opt_str(idx_name)
 //@ - g_var == for_def.var_name@
 //@ - idx == it.index@
